@@ -6,6 +6,7 @@ package refx
 
 import (
 	"sort"
+	"strconv"
 	"strings"
 
 	"verifharness/lang"
@@ -29,6 +30,17 @@ func RunOne(p *lang.Program, inputs map[string]*lang.Val, pol ref.Policy, cfg re
 
 // Stable returns the reference outcome, or a discard reason.
 func Stable(p *lang.Program, inputs map[string]*lang.Val, cfg ref.Config) (*ref.Outcome, string) {
+	return StableBy(p, inputs, cfg, (*ref.Outcome).Key)
+}
+
+// KeyWithAllocs also distinguishes outcomes by the number of tracked
+// allocations (for checks that compare the VM's allocation count).
+func KeyWithAllocs(o *ref.Outcome) string {
+	return o.Key() + "|allocs=" + strconv.FormatInt(o.Stats.Allocs, 10)
+}
+
+// StableBy is Stable with the caller's notion of "same outcome".
+func StableBy(p *lang.Program, inputs map[string]*lang.Val, cfg ref.Config, key func(*ref.Outcome) string) (*ref.Outcome, string) {
 	var outs []*ref.Outcome
 	for _, pol := range ref.Policies {
 		o := RunOne(p, inputs, pol, cfg)
@@ -42,9 +54,62 @@ func Stable(p *lang.Program, inputs map[string]*lang.Val, cfg ref.Config) (*ref.
 		outs = append(outs, o)
 	}
 	for _, o := range outs[1:] {
-		if o.Key() != outs[0].Key() {
+		if key(o) != key(outs[0]) {
 			return outs[0], "excluded:capacity-or-map-order-dependent"
 		}
 	}
 	return outs[0], ""
+}
+
+// AllOutcomes enumerates the orders in which the program's map traversals can
+// run (every traversal of two or more keys is a separate decision, see
+// ref.Chooser) under each append-capacity behaviour, and returns the distinct
+// outcomes by Outcome.Key. complete is false when more than budget runs would
+// be needed. It is the exhaustive counterpart of Stable's four fixed orders
+// and is meant for the failure path of a check: a program for which it
+// returns more than one outcome depends on map order or hidden capacity and
+// is outside every property's domain, however the four fixed orders came out.
+func AllOutcomes(p *lang.Program, inputs map[string]*lang.Val, cfg ref.Config, budget int, key func(*ref.Outcome) string) (outs map[string]*ref.Outcome, complete bool) {
+	outs = map[string]*ref.Outcome{}
+	complete = true
+	runs := 0
+	for _, capPol := range []string{"exact", "spare", "inf"} {
+		prefix := []int{}
+		for {
+			if runs >= budget {
+				return outs, false
+			}
+			runs++
+			ch := &ref.Chooser{Prefix: prefix}
+			o := RunOne(p, inputs, ref.Policy{Cap: capPol, Ch: ch}, cfg)
+			outs[key(o)] = o
+			// next leaf: bump the deepest decision that has options left
+			tr := ch.Trace
+			i := len(tr) - 1
+			for i >= 0 && tr[i].Pick+1 >= tr[i].N {
+				i--
+			}
+			if i < 0 {
+				break
+			}
+			prefix = make([]int, i+1)
+			for j := 0; j < i; j++ {
+				prefix[j] = tr[j].Pick
+			}
+			prefix[i] = tr[i].Pick + 1
+		}
+	}
+	return outs, complete
+}
+
+// OrderDependent reports whether exhaustive enumeration (AllOutcomes) finds
+// more than one outcome; checks call it before reporting a mismatch.
+func OrderDependent(p *lang.Program, inputs map[string]*lang.Val, cfg ref.Config) bool {
+	return OrderDependentBy(p, inputs, cfg, (*ref.Outcome).Key)
+}
+
+// OrderDependentBy is OrderDependent with the caller's notion of "same outcome".
+func OrderDependentBy(p *lang.Program, inputs map[string]*lang.Val, cfg ref.Config, key func(*ref.Outcome) string) bool {
+	outs, _ := AllOutcomes(p, inputs, cfg, 600, key)
+	return len(outs) > 1
 }
